@@ -742,7 +742,10 @@ func restoreCollection(co *CollectionOptions, storeFooter *Footer) (
 func removeFiles(dir string, fnames []string) error {
 	for _, fname := range fnames {
 		err := os.Remove(path.Join(dir, fname))
-		if err != nil {
+		if err != nil && !os.IsNotExist(err) {
+			// A file that is already gone (for example removed by a
+			// pending removeFileOnClose of a previous Store on the same
+			// directory) needs no clean up.
 			return err
 		}
 	}
